@@ -20,13 +20,13 @@ func init() {
 		Decides: "that every hit and every needed value reaches every calculator: in every collector function that feeds a hit to the top-level bucket, on every path the document values are loaded (whenever fields are needed) before Bucket.Consume, and Consume happens before the paging key, the pruning bound, the top-N store or the match pool are consulted and before any successful return; every hit obtained from the searcher in the collect loop is handed to that function before the next hit is fetched; every Aggregation type that owns nested aggregations includes their Fields() in its own; every Calculator type that owns buckets finishes each of them in its Finish(). the field list handed to the doc-value reader went through a uniqueness filter; a calculator's match counter is incremented exactly once per consumed match. lists a function builds for a hit with append do not start from a field or package variable.",
 		NotCovered: "numeric exactness of the individual calculators (sums, sketches, quantiles); the values the sources extract.",
 	})
-	registerRule(&RuleInfo{ID: "C16.R1", Title: "every hit is consumed by the aggregations before paging/pruning", Floor: 3, Run: ruleC16R1,
+	registerRule(&RuleInfo{ID: "C16.R1", Title: "every hit is consumed by the aggregations before paging/pruning", Floor: 2, Run: ruleC16R1,
 		Covers: "path-sensitive typestate of every function calling Bucket.Consume in search/collector and of the collect loop"})
 	registerRule(&RuleInfo{ID: "C16.R4", Title: "every calculator gets its own accumulators", Floor: 5, Run: ruleC16R4,
 		Covers: "sibling cross-check over every Aggregation.Calculator(): accumulator fields of the returned calculator are freshly created, never shared with the aggregation object"})
-	registerRule(&RuleInfo{ID: "C16.R2", Title: "nested aggregations declare their fields", Floor: 3, Run: ruleC16R2,
+	registerRule(&RuleInfo{ID: "C16.R2", Title: "nested aggregations declare their fields", Floor: 2, Run: ruleC16R2,
 		Covers: "sibling cross-check over all implementations of search.Aggregation that own a map of nested aggregations"})
-	registerRule(&RuleInfo{ID: "C16.R3", Title: "nested calculators are finished", Floor: 3, Run: ruleC16R3,
+	registerRule(&RuleInfo{ID: "C16.R3", Title: "nested calculators are finished", Floor: 2, Run: ruleC16R3,
 		Covers: "sibling cross-check over all implementations of search.Calculator that own buckets"})
 }
 
